@@ -18,7 +18,7 @@ IR_FOR_OPSET = {18: 8, 19: 9, 20: 9, 21: 10, 22: 10, 23: 11, 24: 12, 25: 13}
 
 FOCUS_OPS = ["DFT", "GridSample", "GroupNormalization", "Relu", "Add", "Reshape", "Resize", "Cast", "ReduceSum"]
 PLACES = ["main", "if_inner", "if_outer", "func", "func_if"]
-INITS = ["plain", "overridable", "big"]
+INITS = ["plain", "overridable", "big", "big_overridable"]
 NAMES = ["plain", "val"]                         # "val": outer values named like generated names (val_0, val_1, ...)
 
 # -- per-op parameter menus (entry 0 = default) ------------------------------------------------------------
@@ -293,9 +293,14 @@ def build(spec):
     if inits_kind == "overridable":
         b.inputs.append(_vi("c0", TP.FLOAT, [1]))
         b.feeds["c0"] = [None, np.array([-2.0], dtype=np.float32)]   # None: do not feed (use the default)
-    if inits_kind == "big":
+    if inits_kind in ("big", "big_overridable"):
         big = ((np.arange(1100, dtype=np.float32) % 7) - 3.0) * 0.01
         b.inits.append(nph.from_array(big.astype(np.float32), "big"))
+        if inits_kind == "big_overridable":
+            # the >1000-element initializer is also a graph input (keep_initializers_as_inputs style): the C-API
+            # fallback strips big tensors before conversion and has to give every one of them its value back
+            b.inputs.append(_vi("big", TP.FLOAT, [1100]))
+            b.feeds["big"] = [None, (big[::-1] * 2.0).astype(np.float32)]
         nodes.append(oh.make_node("ReduceSum", ["big"], ["bs"], keepdims=1))
         nodes.append(oh.make_node("Add", ["y", "bs"], ["y2"]))
         nodes.append(oh.make_node("Add", ["y2", "c0"], ["out"]))
